@@ -19,6 +19,7 @@ from ..core.result import Failure, Report
 from ..ref import expand as rx
 
 ID = "C03"
+NOT_CBI_TOKENS = {"++", "--", "->", "+=", "-=", "*=", "/=", "%=", "&=", "|=", "^=", "<<=", ">>=", "...", "<:", ":>", "<%", "%>", "%:"}
 TIMEOUT_S = 5
 
 
@@ -36,6 +37,17 @@ def fam1(k):
     for b in strings(P, k):
         for i in inv:
             yield ([f"F(x,y) {b}"], i)
+
+
+def fam1b(k):
+    """longer bodies over a reduced alphabet: a plain use of a parameter followed by a ## use of the same one, nested self calls"""
+    P = ["x", "y", "##", "1", "k", "+"]
+    inv = ["F(1,2)", "F(F(1,2),3)", "F(A,2)", "F(F(A,A),F(1,2))", "F(,)", "F(G LP 5), 2)", "F(F,1)(2,3)"]
+    for b in strings(P, k):
+        if len(b.split()) < 3:
+            continue
+        for i in inv:
+            yield ([f"F(x,y) {b}", "A 1 A", "G(z) z F", "LP ("], i)
 
 
 def fam2(k, small):
@@ -217,6 +229,9 @@ def oracle(cases, single=False):
         if ref != gt:
             out.append(("disagree", ref, gt))
             continue
+        if any(t in NOT_CBI_TOKENS for t in gt):
+            out.append(("ill", "expansion contains a C token outside the #if vocabulary (e.g. ++ from + ## +)"))
+            continue
         out.append(("ok", gt, r["if_value"]))
     return out
 
@@ -341,10 +356,10 @@ def _chunks(it, n):
 def run(tier):
     rep = Report(ID, "exploration")
     if tier == "quick":
-        fams = {"single F(x,y), bodies<=2": fam1(2), "F(x)+G(y), bodies<=2 (small alphabet)": fam2(2, True), "object-like A,B, bodies<=2": fam3(2),
+        fams = {"single F(x,y), bodies<=2": fam1(2), "F(x,y) bodies of 3..4 phrases over {x y ## 1 k +} + helper macros": fam1b(4), "F(x)+G(y), bodies<=2 (small alphabet)": fam2(2, True), "object-like A,B, bodies<=2": fam3(2),
                 "variadic, bodies<=2": fam4(2), "balanced invocations<=4 x 11 tables": fam5(4)}
     else:
-        fams = {"single F(x,y), bodies<=3": fam1(3), "F(x)+G(y), bodies<=2": fam2(2, False), "object-like A,B, bodies<=3 (k=2 for B)": fam3(2),
+        fams = {"single F(x,y), bodies<=3": fam1(3), "F(x,y) bodies of 3..5 phrases over {x y ## 1 k +} + helper macros": fam1b(5), "F(x)+G(y), bodies<=2": fam2(2, False), "object-like A,B, bodies<=3 (k=2 for B)": fam3(2),
                 "variadic, bodies<=3": fam4(3), "balanced invocations<=5 x 11 tables": fam5(5)}
     # seed-selected extension: fam1 bodies of length 3 starting with a seed-chosen phrase
     P = ["x", "y", "#x", "##", "1", "k", "+", "(x)", ",", "F(x,y)"]
